@@ -239,6 +239,7 @@ func (t *Target) WaitUntilHealthy(timeout time.Duration) bool {
 func (t *Target) HealthCheckCompleted(success bool) {
 	previousState := t.state
 	newState := t.state
+	becameHealthy := false
 
 	t.withInflightLock(func() {
 		switch success {
@@ -246,7 +247,7 @@ func (t *Target) HealthCheckCompleted(success bool) {
 			switch t.state {
 			case TargetStateAdding:
 				t.state = TargetStateHealthy
-				close(t.becameHealthy)
+				becameHealthy = true
 			default:
 				t.state = TargetStateHealthy
 			}
@@ -265,6 +266,13 @@ func (t *Target) HealthCheckCompleted(success bool) {
 		if t.stateConsumer != nil {
 			t.stateConsumer.TargetStateChanged(t)
 		}
+	}
+
+	// Only announce the target as healthy once the state consumer (the load
+	// balancer) has taken it into rotation; otherwise a deploy can complete
+	// and route requests to a balancer whose rotation is still empty.
+	if becameHealthy {
+		close(t.becameHealthy)
 	}
 }
 
